@@ -10,7 +10,6 @@ use crate::{
     corpus::{mode_name, real_encode, Corpus, Enc, MODES},
     ctx::{hex, Ctx, Part},
     refspec::{GenOpts, TextMode},
-    rng::Rng,
     sess::composition,
     transport::{runtime, Conn, Handle, Impl, WAct},
 };
@@ -103,9 +102,9 @@ pub fn run(ctx: &mut Ctx) -> (&'static str, String, bool) {
         let _g = rt.enter();
         let mut p = Part::new();
         let mut r = base_rng.fork(1);
-        let short_kinds = ["TINY", "SMALL", "PLP", "VTN", "SCH", "CRS", "PLC"];
+        let short_kinds: &[&str] = if miri { &["TINY", "SMALL"] } else { &["TINY", "SMALL", "PLP", "VTN", "SCH", "CRS", "PLC"] };
         for compressed in MODES {
-            for kind in short_kinds {
+            for &kind in short_kinds {
                 let lay = c.spec.packet(kind);
                 let o = GenOpts { text: TextMode::Ascii, max_list: Some(1), boundary: 4, hostile: false };
                 let Ok((_, pk)) = c.packet(&mut r, lay, &o) else { continue };
@@ -118,7 +117,7 @@ pub fn run(ctx: &mut Ctx) -> (&'static str, String, bool) {
                     if miri && mask % nshards != shard {
                         continue;
                     }
-                    for pend in 0..3usize {
+                    for pend in 0..if miri { 2usize } else { 3usize } {
                         let mut plan = vec![];
                         for k in composition(total, mask) {
                             for _ in 0..pend {
